@@ -244,6 +244,68 @@ CPPad(t, f, m, width, fill, ext) ==
 
 ---------------------------------------------------------------------------
 (***************************************************************************)
+(* to_str(None, optimize, reset_start, reset_end): the walk over the table *)
+(* and the optimiser, transcribed.  The effect dictionary is an ORDERED    *)
+(* sequence of <<group, tid>> (Python dict semantics: assigning to an      *)
+(* existing key keeps its position; the library files code 10 as an        *)
+(* "apply" code of the font group).                                        *)
+(***************************************************************************)
+LibGroupOf(tid) == GroupOf(ParamList(TextTable[tid]).ps[1])
+LibIsClear(tid) == ParamList(TextTable[tid]).ps[1] \in (ClearCodes \ {10})
+LibIsReset(tid) == ParamList(TextTable[tid]).ps[1] = 0
+
+DictHas(d, g) == \E k \in DOMAIN d : d[k][1] = g
+DictGet(d, g) == d[CHOOSE k \in DOMAIN d : d[k][1] = g][2]
+DictSet(d, g, t) == IF DictHas(d, g) THEN [k \in DOMAIN d |-> IF d[k][1] = g THEN <<g, t>> ELSE d[k]] ELSE d \o << <<g, t>> >>
+DictDel(d, g) == SelectSeq(d, LAMBDA e : e[1] # g)
+
+\* settings_to_dict(settings) for parsable settings
+RECURSIVE ToDict(_, _, _)
+ToDict(cur, i, d) ==
+  IF i > Len(cur) THEN d
+  ELSE LET t == cur[i][2] IN
+       IF LibIsReset(t) THEN ToDict(cur, i + 1, << >>)
+       ELSE IF LibIsClear(t) THEN ToDict(cur, i + 1, DictDel(d, LibGroupOf(t)))
+       ELSE ToDict(cur, i + 1, DictSet(d, LibGroupOf(t), t))
+
+RECURSIVE JoinSeqs(_, _)
+JoinSeqs(parts, i) == IF i > Len(parts) THEN << >>
+                      ELSE parts[i] \o (IF i < Len(parts) THEN <<SEMI>> ELSE << >>) \o JoinSeqs(parts, i + 1)
+SgrSeq(codes) == <<ESC, LBRK>> \o codes \o <<LOWM>>
+TabParsable(f) == \A k \in DOMAIN f : \A i \in DOMAIN f[k].add : Sem[f[k].add[i][2]].cls = "single"
+
+RECURSIVE RenderLoop(_, _, _, _, _, _, _, _, _, _)
+RenderLoop(t, f, it, j, fl, optimize, out, lastIdx, dict, st) ==      \* st = <<first_iter, settings_exist>>
+  IF j > Len(it) \/ it[j][1] >= Len(t) THEN [out |-> out, lastIdx |-> lastIdx, st |-> st]
+  ELSE
+    LET idx == it[j][1] cur == it[j][2] p == f[idx]
+        out1 == (IF st[1] /\ idx > 0 /\ fl[2] = 1 THEN out \o SgrSeq(<< >>) ELSE out) \o SubSeq(t, lastIdx + 1, idx)
+        texts == [k \in DOMAIN cur |-> TextTable[cur[k][2]]]
+        toApply == IF p.rem # << >> /\ texts # << >> THEN << <<48>> >> \o texts ELSE texts
+        codes0 == JoinSeqs(toApply, 1)
+        newDict == IF optimize THEN ToDict(cur, 1, << >>) ELSE dict
+        cleared == IF optimize THEN SelectSeq(dict, LAMBDA e : ~DictHas(newDict, e[1])) ELSE << >>
+        changed == IF optimize THEN SelectSeq(newDict, LAMBDA e : ~DictHas(dict, e[1]) \/ TextTable[DictGet(dict, e[1])] # TextTable[e[2]])
+                   ELSE << >>
+        optParts == [k \in DOMAIN cleared |-> Dec(ClearCodeOf(cleared[k][1]))] \o [k \in DOMAIN changed |-> TextTable[changed[k][2]]]
+        optCodes == JoinSeqs(optParts, 1)
+        apply0 == ~(optimize /\ optCodes = << >>)
+        codes1 == IF optimize /\ optCodes # << >> /\ Len(optCodes) < Len(codes0) THEN optCodes ELSE codes0
+        atZero == idx = 0 /\ fl[2] = 1
+        codes2 == IF atZero THEN <<48, SEMI>> \o codes1 ELSE codes1
+        out2 == IF apply0 \/ atZero THEN out1 \o SgrSeq(codes2) ELSE out1
+    IN RenderLoop(t, f, it, j + 1, fl, optimize, out2, idx, newDict, <<FALSE, cur # << >> >>)
+
+CPRender(t, f, fl) ==
+  IF f = EmptyTab /\ fl[2] = 0 THEN t
+  ELSE LET optimize == fl[1] = 1 /\ TabParsable(f)
+           r == RenderLoop(t, f, Iter(f), 1, fl, optimize, << >>, 0, << >>, <<TRUE, FALSE>>)
+           out1 == IF r.st[1] /\ fl[2] = 1 THEN r.out \o SgrSeq(<< >>) ELSE r.out
+           out2 == out1 \o SubSeq(t, r.lastIdx + 1, Len(t))
+       IN IF r.st[2] /\ fl[3] = 1 THEN out2 \o SgrSeq(<< >>) ELSE out2
+
+---------------------------------------------------------------------------
+(***************************************************************************)
 (* DRIFT detection on recorded events: the transcribed operator applied to *)
 (* the LOGGED pre-table must give the LOGGED post-table.  v.f is the raw   *)
 (* table as the recorder read it: << <<key, add, rem>>, ... >>.            *)
@@ -285,6 +347,8 @@ DriftClauses(e, pre, post) ==
          LET w == ResultOf(e, post)
              g == CPPad(v.t, f, e.a.m, e.a.width, e.a.fill[1], e.a.extend = 1)
          IN Cl("drift.pad", f # EmptyTab, w.t = g[1] /\ TabOf(w.f) = g[2])
+    [] e.op = "render" /\ e.a.spec = << >> /\ v.k = "S" /\ e.a.drift = 1 ->
+         Cl("drift.render", f # EmptyTab, e.o.out = CPRender(v.t, f, e.a.flags))
     [] e.op = "copy" /\ HasResult(e) ->
          Cl("drift.copy", f # EmptyTab, TabOf(ResultOf(e, post).f) = f)
     [] OTHER -> None
